@@ -112,6 +112,8 @@ QLaws(v) ==
       lo == IF v.sym THEN QMin(v.bits) + 1 ELSE QMin(v.bits)
       inrange == RLe(Dequantize(lo, v.scale, v.zp), v.x) /\ RLe(v.x, Dequantize(QMax(v.bits), v.scale, v.zp))
   IN /\ q \in lo..QMax(v.bits)                                          \* inside the (narrow) range
+     /\ (RLt(v.x, Dequantize(lo, v.scale, v.zp)) => q = lo)              \* saturating: below the range -> lowest code
+     /\ (RLt(Dequantize(QMax(v.bits), v.scale, v.zp), v.x) => q = QMax(v.bits))      \* above the range -> highest code
      /\ inrange => RLe(RAbs(RSub(Dequantize(q, v.scale, v.zp), v.x)), RDiv(v.scale, RInt(2)))   \* half a step
      /\ Quantize(Dequantize(q, v.scale, v.zp), v.scale, v.zp, v.bits, v.sym)[1] = q                \* idempotent
      \* monotone: the next grid point never gets a smaller code
